@@ -151,8 +151,14 @@ def judge(prog, outs, supplied, bs, model=None, decl='ctor'):
             return ('C03:observed-data-depends-on-stochastic-node-but-evaluated', what)
         return None
     if got == 'reject':
-        if bad_obs:
-            return None      # some (not needed) observed data is stochastic: rejecting the graph is allowed
+        if bad_obs and supplied:
+            # the stochastic-dependence check is made when the graph is compiled for the requested outputs, before the
+            # supplied values are known: rejecting is allowed when the request needs such observed data unless values
+            # are supplied.  Observed data behind a GIVEN observation, or not needed for the outputs at all, is no reason.
+            try:
+                R.Ref(prog, bs).evaluate(outs, [])
+            except R.Reject:
+                return None
         site = elfi_site(got_exc.__traceback__) or 'harness'
         return ('C03:valid-graph-rejected:%s@%s' % (type(got_exc).__name__, site),
                 dict(what, error=repr(got_exc)[:300]))
